@@ -148,6 +148,15 @@ CHECKS = {
              "callables, torch dtypes check that config.json loads with the standard JSON reader.",
         note="generated dictionaries only contain value shapes that some real configuration produces (a free generator would report things the writers were never asked to do)",
         ref="DESIGN.md §3 C19"),
+    "C08": dict(
+        cat="exploration", technique="density self-consistency monitor on real flow, FlowModel and proposal objects against a direct composition of the glasflow transforms and closed-form base densities; float64 deciding",
+        text="80 (thorough 900) seeded flow configurations (RealNVP/MAF/NSF x linear transforms x batch-norm/actnorm x masks x base distributions incl. LARS x nets x "
+             "volume-preserving x d 2/3/5 x float32/float64) in the weight states fresh, perturbed, trained 5 epochs, reset weights, reset permutations: generated vs evaluated "
+             "log-density, inverse(forward(x)) = x, FlowModel wrappers (incl. supplied latent points and alternative latent distribution) vs direct evaluation, 2-d "
+             "normalisation integral; 24 (120) FlowProposal / AugmentedFlowProposal cases (backward vs forward density and latent points, Jacobian pairing) and 6 (36) real INS "
+             "runs (draw table = compute_meta_proposal_samples = incremental update_log_q = stored table).",
+        note="float32 disagreements are re-examined in float64 with the same weights and only count if they persist; ill-conditioned untrained batch-norm states and clamp bands are "
+             "excluded and counted", ref="DESIGN.md §3 C08"),
 }
 
 PENDING_REASON = "check designed in DESIGN.md but not yet built/calibrated in this session; not claimed until its monitor is silent on the unchanged tree"
